@@ -573,6 +573,74 @@ def ModeBasis.fromDict (t : Tree) (native : Bool := true) : Except Err ModeBasis
   | .bool false => .ok (ModeBasis.toDense ⟨m, g⟩)
   | _ => .error .type
 
+/-! ## sparse storage formats assigned through the `transformation_matrix` setter
+
+The constructor, `append` and `extend` always store CSC; the setter stores what it is given.
+`to_dict` (after the repair of D162) converts to CSC first; the unrepaired `to_dict` wrote the
+`data` / `indices` / `indptr` attributes of whatever matrix was stored. -/
+
+/-- what `ModeBasis._transformation_matrix` can hold when it is sparse.  A CSR matrix is carried as
+its three arrays and its shape `[rows, columns]` (same record as `Csc`; `indices` are column indices,
+`indptr` has `rows + 1` entries).  `noIndices`: COO, LIL, DIA, DOK — formats without
+`indices` / `indptr` attributes. -/
+inductive SpStore where
+  | csc (c : Csc)
+  | csr (r : Csc)
+  | noIndices
+deriving Repr
+
+/-- the stored entries `(row, column, value)` of a CSR matrix, in storage order -/
+def csrEntries (r : Csc) : List (Nat × Nat × Rat) :=
+  (List.range (r.shape.headD 0)).flatMap fun i =>
+    let lo := ratNat (r.indptr.data.getD i 0)
+    let hi := ratNat (r.indptr.data.getD (i + 1) 0)
+    (List.range (hi - lo)).map fun q =>
+      (i, ratNat (r.indices.data.getD (lo + q) 0), r.data.data.getD (lo + q) 0)
+
+/-- `scipy.sparse.csc_matrix(csr)` (`csr_tocsc`): the entries are distributed over the columns in
+storage order, i.e. sorted by row inside each column; explicit zeros and duplicates are kept -/
+def csrToCsc (r : Csc) : Csc :=
+  let n := r.shape.headD 0
+  let m := (r.shape.drop 1).headD 0
+  let es := csrEntries r
+  let cols := (List.range m).map fun j => es.filter fun e => e.2.1 == j
+  let flat := cols.flatten
+  { data := ⟨r.data.dtype, [flat.length], flat.map (·.2.2)⟩
+    indices := ⟨r.indices.dtype, [flat.length], flat.map fun e => natRat e.1⟩
+    indptr := ⟨r.indptr.dtype, [m + 1], (cumul 0 (cols.map List.length)).map natRat⟩
+    shape := [n, m] }
+
+/-- the dense matrix a CSR record stands for (duplicates summed) -/
+def csrToDense (r : Csc) : Arr :=
+  let n := r.shape.headD 0
+  let m := (r.shape.drop 1).headD 0
+  let es := csrEntries r
+  { dtype := r.data.dtype, shape := [n, m]
+    data := (List.range (n * m)).map fun k =>
+      sumRat ((es.filter fun e => e.1 == k / m && e.2.1 == k % m).map (·.2.2)) }
+
+/-- the `transformation_matrix` entry of `to_dict()` after the repair of D162:
+`scipy.sparse.csc_matrix(T)` first.  (COO … DOK are converted by SciPy too; their conversion is not
+modelled: `none`.) -/
+def SpStore.toCsc : SpStore → Option Csc
+  | .csc c => some c
+  | .csr r => some (csrToCsc r)
+  | .noIndices => none
+
+/-- the unrepaired `to_dict()`: the attributes of the stored matrix as they are (`AttributeError`
+for the formats that have none) -/
+def SpStore.toDictOld : SpStore → Except Err Tree
+  | .csc c => .ok c.toDict
+  | .csr r => .ok r.toDict
+  | .noIndices => .error .attr
+
+/-- SciPy's consistency check of `csc_matrix((data, indices, indptr), shape)`:
+`len(indptr) == columns + 1` ("index pointer size … should be …") and 1-D arrays of equal length -/
+def Csc.wellFormed (c : Csc) : Bool :=
+  c.shape.length == 2 &&
+  c.indptr.data.length == (c.shape.drop 1).headD 0 + 1 &&
+  c.data.data.length == c.indices.data.length
+
 /-! ## FITS files -/
 
 structure FitsFile where
@@ -667,6 +735,154 @@ def readBasisFitsOld (file : FitsFile) : Except Err ModeBasis :=
     let m ← img.reshape (pyDropLast img.shape g.coords.ndim ++ [g.coords.size])
     ModeBasis.fromDict (file.tree.set .tm (.arr m.transposeAll)) (fitsNative img.dtype)
   | none => ModeBasis.fromDict file.tree true
+
+/-! ## dtypes: kind, item size, byte order, and what each route does with them
+
+Until round 5 a dtype was the opaque tag of `Arr.dtype` and `fitsDtypeOk` a table.  Here a dtype is
+NumPy's triple; `fitsCard` is astropy's choice of `BITPIX` / `BZERO` for an image HDU (signed 8 bit
+and the unsigned types are stored with an offset), and `readDType` is the dtype of the values read
+back through each route.  `fitsDtypeOk` is proved to be `fitsCard` succeeding. -/
+
+inductive DKind where
+  | bool | int | uint | float | complex
+deriving DecidableEq, Repr
+
+/-- NumPy's byte-order character: `<`, `>`, `|` (single byte: not applicable) -/
+inductive BOrder where
+  | little | big | na
+deriving DecidableEq, Repr
+
+structure DType where
+  kind : DKind
+  size : Nat
+  order : BOrder
+deriving DecidableEq, Repr
+
+/-- the dtypes NumPy has for these kinds (bool; 8–64 bit integers; float16/32/64; complex64/128);
+single-byte types have no byte order, every other type has one -/
+def DType.wellFormed (d : DType) : Bool :=
+  (match d.kind with
+   | .bool => d.size == 1
+   | .int | .uint => d.size == 1 || d.size == 2 || d.size == 4 || d.size == 8
+   | .float => d.size == 2 || d.size == 4 || d.size == 8
+   | .complex => d.size == 8 || d.size == 16) &&
+  ((d.order == .na) == (d.size == 1))
+
+def DKind.char : DKind → String
+  | .bool => "b" | .int => "i" | .uint => "u" | .float => "f" | .complex => "c"
+
+def BOrder.char : BOrder → String
+  | .little => "<" | .big => ">" | .na => "|"
+
+/-- the byte-order-free tag carried by `Arr.dtype` (`"f8"`, `"u2"`, `"b1"`, `"c16"`) -/
+def DType.tag (d : DType) : String := d.kind.char ++ toString d.size
+
+/-- NumPy's `dtype.str` (`"<f8"`, `"|u1"`) -/
+def DType.str (d : DType) : String := d.order.char ++ d.tag
+
+def DType.parse? (s : String) : Option DType :=
+  match s.toList with
+  | o :: k :: digits =>
+    match (match o with | '<' => some BOrder.little | '>' => some .big | '|' => some .na | _ => none),
+          (match k with | 'b' => some DKind.bool | 'i' => some .int | 'u' => some .uint | 'f' => some .float
+                        | 'c' => some .complex | _ => none),
+          (String.ofList digits).toNat? with
+    | some o, some k, some n => some ⟨k, n, o⟩
+    | _, _, _ => none
+  | _ => none
+
+/-- the machine is little endian (x86-64 / aarch64): `=` is `<`, single bytes stay `|` -/
+def DType.native (d : DType) : DType := { d with order := if d.size = 1 then .na else .little }
+
+/-- the integers a dtype can hold (floats and complex numbers are not restricted here: the model
+carries their values as exact rationals) -/
+def DType.holds (d : DType) (v : Int) : Bool :=
+  match d.kind with
+  | .bool => v == 0 || v == 1
+  | .int => decide (-(2 ^ (8 * d.size - 1) : Int) ≤ v) && decide (v < (2 ^ (8 * d.size - 1) : Int))
+  | .uint => decide (0 ≤ v) && decide (v < (2 ^ (8 * d.size) : Int))
+  | .float | .complex => true
+
+/-- the header cards of a FITS image HDU that decide how pixels are stored -/
+structure FitsCard where
+  bitpix : Int
+  /-- `BZERO` (0 = the card is absent) -/
+  bzero : Int
+deriving DecidableEq, Repr
+
+/-- `astropy.io.fits.ImageHDU(array)`: `BITPIX` from the dtype (`DTYPE2BITPIX[dtype.name]`, a
+`KeyError` for `bool`, `float16`, `complex64/128`), signed bytes and unsigned 16/32/64 bit integers as
+the signed / unsigned storage type of the same width with `BZERO = ∓2^(bits-1)`.  Byte order plays no
+role: the file is big endian. -/
+def fitsCard (d : DType) : Except Err FitsCard :=
+  match d.kind, d.size with
+  | .uint, 1 => .ok ⟨8, 0⟩
+  | .int, 1 => .ok ⟨8, -128⟩
+  | .int, 2 => .ok ⟨16, 0⟩
+  | .int, 4 => .ok ⟨32, 0⟩
+  | .int, 8 => .ok ⟨64, 0⟩
+  | .uint, 2 => .ok ⟨16, 32768⟩
+  | .uint, 4 => .ok ⟨32, 2147483648⟩
+  | .uint, 8 => .ok ⟨64, 9223372036854775808⟩
+  | .float, 4 => .ok ⟨-32, 0⟩
+  | .float, 8 => .ok ⟨-64, 0⟩
+  | _, _ => .error .key
+
+/-- the number written to the file for the pixel value `v`, and back -/
+def FitsCard.store (c : FitsCard) (v : Rat) : Rat := v - c.bzero
+def FitsCard.load (c : FitsCard) (s : Rat) : Rat := s + c.bzero
+
+/-- does the stored integer fit the storage type of the file (`BITPIX = 8`: unsigned byte;
+16/32/64: two's complement; negative `BITPIX`: IEEE floats, not restricted here) -/
+def FitsCard.fits (c : FitsCard) (s : Int) : Bool :=
+  if c.bitpix = 8 then decide (0 ≤ s) && decide (s < 256)
+  else if 0 < c.bitpix then
+    decide (-(2 ^ (c.bitpix.toNat - 1) : Int) ≤ s) && decide (s < (2 ^ (c.bitpix.toNat - 1) : Int))
+  else true
+
+/-- the ways values travel -/
+inductive Route where
+  /-- `from_dict(to_dict(x))` -/
+  | dict
+  /-- an asdf file (arrays keep dtype and byte order) -/
+  | asdf
+  /-- `pickle` of a `Field` (`__getstate__` / `__setstate__`) -/
+  | pickle
+  /-- `pickle` of a `ModeBasis` or `Grid` (default pickling: the object's `__dict__`, arrays by NumPy).  Kind and
+  item size are kept; which byte order NumPy's unpickling hands back depends on the protocol and the memory
+  layout and is not modelled (native here; the harness compares this route up to byte order) -/
+  | pickleObject
+  /-- FITS file, values inside the embedded ASDF tree (non-separated grids) -/
+  | fitsTree
+  /-- FITS file, `Field` values as the image HDU -/
+  | fitsImageField
+  /-- FITS file, mode-basis matrix as the image HDU (`read_mode_basis` converts to native order, D14) -/
+  | fitsImageBasis
+deriving DecidableEq, Repr
+
+/-- the dtype astropy hands back for an image HDU: single bytes as they are, `BZERO`-scaled unsigned
+integers as a freshly computed native array, everything else as the big-endian file content -/
+def fitsImageDType (d : DType) : Except Err DType := do
+  let c ← fitsCard d
+  .ok (if d.size = 1 then { d with order := .na }
+       else if c.bzero ≠ 0 then d.native else { d with order := .big })
+
+/-- **the dtype of the values read back** through each route, or the refusal of the write.
+Pickles (a `Field` through `__setstate__`, the arrays inside a pickled `ModeBasis`) come back in native
+byte order: that is what NumPy's array pickling does on the NumPy under test (observed, tied). -/
+def readDType (r : Route) (d : DType) : Except Err DType :=
+  match r with
+  | .dict | .asdf | .fitsTree => .ok d
+  | .pickle | .pickleObject => .ok d.native
+  | .fitsImageField => fitsImageDType d
+  | .fitsImageBasis => (fitsImageDType d).map DType.native
+
+/-- every well-formed dtype (for the finite statements) -/
+def DType.all : List DType :=
+  [⟨.bool, 1, .na⟩, ⟨.int, 1, .na⟩, ⟨.uint, 1, .na⟩] ++
+  ([BOrder.little, BOrder.big].flatMap fun o =>
+    [⟨.int, 2, o⟩, ⟨.int, 4, o⟩, ⟨.int, 8, o⟩, ⟨.uint, 2, o⟩, ⟨.uint, 4, o⟩, ⟨.uint, 8, o⟩,
+     ⟨.float, 2, o⟩, ⟨.float, 4, o⟩, ⟨.float, 8, o⟩, ⟨.complex, 8, o⟩, ⟨.complex, 16, o⟩])
 
 /-! ## the ASDF layer (asdf files, and the ASDF table embedded in FITS files)
 
@@ -827,6 +1043,10 @@ inductive Stored (P : Type) where
   | asdf (f : AsdfFile)
   | fits (f : FitsFile)
   | pickle (p : P)
+
+/-- the format of a file (what the magic bytes of the real file say) -/
+def Stored.fmt {P : Type} : Stored P → Fmt
+  | .asdf _ => .asdf | .fits _ => .fits | .pickle _ => .pickle
 
 /-- `write_grid(grid, filename, fmt)`: the format is resolved, `grid.to_dict()` is computed (for
 every format), then the format's writer runs.  A pickle holds the object (default pickling). -/
